@@ -326,6 +326,8 @@ type c13H struct {
 	bcryptN  int
 	bcryptMx int
 	notes    map[string]int
+	single   map[string]c13Run // runs of single-element documents (elems)
+	lastOne  c13Run            // the one-run result of the last doc call
 }
 
 func (h *c13H) emit(coq string, nontrivial bool, classes []string, monOK bool, msg, key string, desc any) {
@@ -437,6 +439,14 @@ func (h *c13H) mem(body []byte, cur, tgt uint, what string, classes []string) {
 	if cls == 2 {
 		c13MarkHash(top, pass, hasPass)
 		outS = c13Obj(top)
+		// the tree model has no sharing: count the trees in which a map or a
+		// slice is reachable by two paths (informational; what a write through
+		// a shared node does is caught by the element monitors)
+		if sh := c13SharedNodes(top); sh != "" {
+			h.notes["mem_trees_with_shared_nodes"]++
+		} else {
+			cl = append(cl, "mem-unshared")
+		}
 		for _, tag := range []string{"VDur", "VMode", "VStrs"} {
 			if strings.Contains(outS, "("+tag+" ") {
 				cl = append(cl, "typed-"+tag)
@@ -501,6 +511,7 @@ func (h *c13H) doc(body []byte, what string, classes []string, splits []uint, me
 		}
 	}
 	one := h.mig(body, top, h.last, what, classes)
+	h.lastOne = one
 	if one.cls == 2 {
 		// upgrading a current file changes nothing
 		again := c13Migrate(one.body, h.last, "", false)
@@ -1064,6 +1075,9 @@ func TestVerifC13(t *testing.T) {
 				[]string{fmt.Sprintf("s%02d-%s", s.step, v.class)}, []uint{s.step}, 1)
 		}
 	}
+
+	// ---- lists: several elements that differ, each treated on its own
+	h.elements(t)
 
 	// ---- random mutations of the golden inputs
 	n := out.Scale(700, 6000)
